@@ -27,6 +27,7 @@ import (
 	"sort"
 	"strconv"
 	"strings"
+	"sync"
 	"time"
 
 	"github.com/avfs/avfs"
@@ -516,6 +517,13 @@ func wrPopulate(v avfs.VFS, seed uint64, kind string) {
 	_ = v.Mkdir("/tmp/d1", 0o755)
 	_ = v.WriteFile("/tmp/f1", []byte("hello world"), 0o644)
 	_ = v.WriteFile("/tmp/d1/f2", []byte("0123456789abcdef"), 0o600)
+	if seed == 0 {
+		// the tree of the "sizes" history: files around the 512-byte buffer of avfs.ReadFile
+		_ = v.Mkdir("/tmp/sz", 0o755)
+		for _, n := range wrFileSizes {
+			_ = v.WriteFile(fmt.Sprintf("/tmp/sz/s%d", n), wrSizedData(n), 0o644)
+		}
+	}
 	dirs := []string{"/tmp", "/tmp/d1"}
 	nd := 1 + r.intn(4)
 	for i := 0; i < nd; i++ {
@@ -842,26 +850,57 @@ func wrUnproxy(x any) any {
 }
 
 func (w *wrWorld) renameTemp(nameB, nameT string) {
-	w.ntemp++
-	dst := fmt.Sprintf("/tmp/tmp%d", w.ntemp)
-	_ = w.B.Rename(nameB, dst)
-	_ = w.T.Rename(nameT, dst)
+	// a name that is free on both sides (the generators may have created /tmp/tmp1 themselves)
+	var dst string
+	for {
+		w.ntemp++
+		dst = fmt.Sprintf("/tmp/tmp%d", w.ntemp)
+		_, eb := w.B.Lstat(dst)
+		_, et := w.T.Lstat(dst)
+		if eb != nil && et != nil {
+			break
+		}
+		if w.ntemp > 1000 {
+			w.desync = true
+			return
+		}
+	}
+	cb, ct := w.B.User(), w.T.User()
+	_ = w.B.SetUser(w.adminB)
+	_ = w.T.SetUser(w.adminT)
+	eb := w.B.Rename(nameB, dst)
+	et := w.T.Rename(nameT, dst)
+	_ = w.B.SetUser(cb)
+	_ = w.T.SetUser(ct)
+	if eb != nil || et != nil {
+		w.desync = true // the two sides can no longer be given the same names: stop comparing with the twin
+	}
 }
 
 func (w *wrWorld) renameTempDir(dir string) {
 	d := wrStr(dir)
 	find := func(v avfs.VFS) string {
 		es, _ := v.ReadDir(d)
+		found := ""
 		for _, e := range es {
-			if wrTempRe.MatchString(e.Name()) {
-				return d + "/" + e.Name()
+			if e.IsDir() && wrTempRe.MatchString(e.Name()) {
+				if found != "" {
+					return "?" // more than one temporary directory: which is which cannot be told
+				}
+				found = d + "/" + e.Name()
 			}
 		}
-		return ""
+		return found
 	}
 	a, b := find(w.B), find(w.T)
+	if a == "?" || b == "?" {
+		w.desync = true
+		return
+	}
 	if a != "" && b != "" {
 		w.renameTemp(a, b)
+	} else if a != b {
+		w.desync = true
 	}
 }
 
@@ -1279,6 +1318,44 @@ func wrCompositeOps() []wrOp {
 	}
 }
 
+var wrFileSizes = []int{0, 1, 511, 512, 513, 1025}
+
+func wrSizedData(n int) []byte {
+	b := make([]byte, n)
+	for i := range b {
+		b[i] = byte('a' + (i*7+n)%26)
+	}
+	return b
+}
+
+// wrSizeOps: the composites over files of 0, 1, 511, 512, 513 and 1025 bytes (tree seed 0 holds them
+// under /tmp/sz). avfs.ReadFile sizes its buffer from File.Stat (at least 512 bytes) and must grow it when
+// Stat did not tell the size - which is what the plans failing FnFileStat make happen.
+func wrSizeOps() []wrOp {
+	var ops []wrOp
+	bind := 400
+	for _, n := range wrFileSizes {
+		bind++
+		ops = append(ops, wrOp{obj: 0, m: "ReadFile", bind: bind, args: []string{wrS(fmt.Sprintf("/tmp/sz/s%d", n))}})
+	}
+	ops = append(ops,
+		wrOp{obj: 0, m: "WriteFile", bind: 420, args: []string{wrS("/tmp/sz/w513"), wrS(string(wrSizedData(513))), "420"}},
+		wrOp{obj: 0, m: "ReadFile", bind: 421, args: []string{wrS("/tmp/sz/w513")}},
+		wrOp{obj: 0, m: "WriteFile", bind: 422, args: []string{wrS("/tmp/sz/w0"), wrS(""), "420"}},
+		wrOp{obj: 0, m: "ReadFile", bind: 423, args: []string{wrS("/tmp/sz/w0")}},
+		wrOp{obj: 0, m: "ReadDir", bind: 424, args: []string{wrS("/tmp/sz")}},
+		wrOp{obj: 0, m: "Glob", bind: 425, args: []string{wrS("/tmp/sz/s5*")}},
+		wrOp{obj: 0, m: "WalkDir", bind: 426, args: []string{wrS("/tmp/sz")}},
+		wrOp{obj: 0, m: "Sub", bind: 427, args: []string{wrS("/tmp/sz")}},
+		wrOp{obj: 427, m: "ReadFile", bind: 428, args: []string{wrS("/s1025")}},
+		wrOp{obj: 0, m: "Open", bind: 429, args: []string{wrS("/tmp/sz/s1025")}},
+		wrOp{obj: 429, file: true, m: "Read", bind: 430, args: []string{"600"}},
+		wrOp{obj: 429, file: true, m: "Read", bind: 431, args: []string{"600"}},
+		wrOp{obj: 429, file: true, m: "Read", bind: 432, args: []string{"0"}},
+		wrOp{obj: 429, file: true, m: "Close", bind: 433})
+	return ops
+}
+
 // wrFocusOps: a history concentrating on one method (V.Name / F.Name).
 func wrFocusOps(baseKind, fm string, seed uint64) []wrOp {
 	r := &rng{s: seed*31 + 7}
@@ -1361,16 +1438,29 @@ func wrFlagSweepOps() []wrOp {
 type wrRun struct {
 	caseLine, obsLine string
 	counts            map[string]int
+	hang              bool
 }
 
 // runHistory executes ops (pre-built or generated on the fly when gen != nil).
+// wrCallTimeout: a call through the wrapper that has not returned after this long is a HANG.
+const wrCallTimeout = 3 * time.Second
+
 func wrRunHistory(kind, baseKind string, treeSeed uint64, plan string, ops []wrOp, gen *rng, n int, cover map[string]int) (res wrRun, performed []wrOp) {
+	// The history runs in its own goroutine and reports after every call; the watchdog below
+	// allows wrCallTimeout per call (set-up included), not per history.
+	var mu sync.Mutex
+	head := fmt.Sprintf("%s %s %d %s", kind, baseKind, treeSeed, plan)
+	cs, os_ := []string{head}, []string{"ok"}
+	var perf []wrOp
+	var current *wrOp
+	var counts map[string]int
 	done := make(chan struct{})
+	progress := make(chan struct{}, 1)
 	go func() {
 		defer close(done)
+		// per-run coverage: merged only when the run completes (the map is not shared with a hung goroutine)
+		cov := map[string]int{}
 		w := wrNewWorld(kind, baseKind, treeSeed, plan)
-		head := fmt.Sprintf("%s %s %d %s", kind, baseKind, treeSeed, plan)
-		cs, os_ := []string{head}, []string{"ok"}
 		nextBind := 10
 		for i := 0; ; i++ {
 			var op wrOp
@@ -1385,30 +1475,65 @@ func wrRunHistory(kind, baseKind string, treeSeed uint64, plan string, ops []wrO
 				}
 				op = ops[i]
 			}
-			performed = append(performed, op)
-			c, o := w.step(op, cover)
+			mu.Lock()
+			perf = append(perf, op)
+			current = &op
+			mu.Unlock()
+			c, o := w.step(op, cov)
+			mu.Lock()
+			current = nil
 			cs = append(cs, c)
 			os_ = append(os_, o)
+			mu.Unlock()
+			select {
+			case progress <- struct{}{}:
+			default:
+			}
 		}
-		res = wrRun{caseLine: strings.Join(cs, " | "), obsLine: strings.Join(os_, " | "), counts: w.counts}
+		mu.Lock()
+		counts = w.counts
+		for k, v := range cov {
+			cover[k] += v
+		}
+		mu.Unlock()
 	}()
-	select {
-	case <-done:
-	case <-time.After(20 * time.Second):
-		// which call? and does the base hang on it when driven directly (then it is the base's defect)?
-		ops2 := append([]wrOp(nil), performed...)
-		head := fmt.Sprintf("%s %s %d %s", kind, baseKind, treeSeed, plan)
-		cs := []string{head}
-		for _, op := range ops2 {
-			cs = append(cs, op.String())
+	timer := time.NewTimer(wrCallTimeout)
+	defer timer.Stop()
+	for {
+		select {
+		case <-done:
+			mu.Lock()
+			defer mu.Unlock()
+			return wrRun{caseLine: strings.Join(cs, " | "), obsLine: strings.Join(os_, " | "), counts: counts}, perf
+		case <-progress:
+			if !timer.Stop() {
+				select {
+				case <-timer.C:
+				default:
+				}
+			}
+			timer.Reset(wrCallTimeout)
+		case <-timer.C:
+			// a call did not return. Which one? Does the bare base hang on the same history (then it is
+			// the base's defect, reported by another property)?
+			mu.Lock()
+			ops2 := append([]wrOp(nil), perf...)
+			cs2, os2 := append([]string(nil), cs...), append([]string(nil), os_...)
+			hung := current
+			mu.Unlock()
+			if hung != nil {
+				cs2 = append(cs2, hung.String())
+				os2 = append(os2, fmt.Sprintf("HANG (the call did not return within %v)", wrCallTimeout))
+			} else {
+				os2 = append(os2, "HANG")
+			}
+			obs := strings.Join(os2, " | ")
+			if wrBaseHangs(baseKind, treeSeed, ops2) {
+				obs = "BASE-HANG"
+			}
+			return wrRun{caseLine: strings.Join(cs2, " | "), obsLine: obs, counts: map[string]int{}, hang: obs != "BASE-HANG"}, ops2
 		}
-		obs := "HANG (a call through the wrapper did not return within 20 s)"
-		if wrBaseHangs(baseKind, treeSeed, ops2) {
-			obs = "BASE-HANG"
-		}
-		res = wrRun{caseLine: strings.Join(cs, " | "), obsLine: obs, counts: map[string]int{}}
 	}
-	return res, performed
 }
 
 // wrBaseHangs replays the history on a bare base (no wrapper, no proxy): true when that hangs too.
@@ -1433,7 +1558,7 @@ func wrBaseHangs(baseKind string, treeSeed uint64, ops []wrOp) bool {
 	select {
 	case <-done:
 		return false
-	case <-time.After(5 * time.Second):
+	case <-time.After(wrCallTimeout + time.Second):
 		return true
 	}
 }
@@ -1442,7 +1567,15 @@ func runWrap(cfg config, kind string) {
 	o := newOut(cfg.dir, cfg.name)
 	cover := map[string]int{}
 	var basehangs []string
+	hangs := 0
+	// after two calls that never returned the run stops: the hung goroutines cannot be killed
+	// (a spinning one keeps a CPU busy), and two witnesses are enough
+	stopped := func() bool { return hangs >= 2 }
 	emit := func(r wrRun) {
+		if r.hang {
+			hangs++
+			o.count("outcome:HANG")
+		}
 		if r.obsLine == "BASE-HANG" {
 			// the bare base hangs on this history (a defect of the base, another property's business)
 			o.count("skipped:base-hangs-when-driven-directly")
@@ -1496,7 +1629,7 @@ func runWrap(cfg config, kind string) {
 		// choices, on the wrapper and on every kind of object it hands out
 		for _, baseKind := range []string{"mem", "orefa"} {
 			for _, fm := range strings.Split(focus, ",") {
-				for rep := 0; rep < 6; rep++ {
+				for rep := 0; rep < 6 && !stopped(); rep++ {
 					fops := wrFocusOps(baseKind, fm, uint64(rep))
 					rr, _ := wrRunHistory(kind, baseKind, uint64(2+rep), "none", fops, nil, 0, cover)
 					emit(rr)
@@ -1506,7 +1639,7 @@ func runWrap(cfg config, kind string) {
 						emit(rr)
 						// ... and with the method's own id failed at its first invocations
 						if fn := wrExpectedFn(strings.HasPrefix(fm, "F."), fm[2:]); fn != "" && rep < 2 {
-							for k := 0; k < 6; k++ {
+							for k := 0; k < 6 && !stopped(); k++ {
 								rr, _ := wrRunHistory(kind, baseKind, uint64(2+rep), fmt.Sprintf("%s:%d", fn, k), fops, nil, 0, cover)
 								emit(rr)
 							}
@@ -1529,7 +1662,7 @@ func runWrap(cfg config, kind string) {
 	r := &rng{s: cfg.seed*7919 + 3}
 	plans := 0
 	runPlans := func(baseKind string, treeSeed uint64, ops []wrOp, counts map[string]int) {
-		if kind != "failfs" {
+		if kind != "failfs" || stopped() {
 			return
 		}
 		rr, _ := wrRunHistory(kind, baseKind, treeSeed, "ro", ops, nil, 0, cover)
@@ -1540,7 +1673,7 @@ func runWrap(cfg config, kind string) {
 		}
 		sort.Strings(fns)
 		for _, fn := range fns {
-			for k := 0; k < counts[fn]; k++ {
+			for k := 0; k < counts[fn] && !stopped(); k++ {
 				rr, _ := wrRunHistory(kind, baseKind, treeSeed, fmt.Sprintf("%s:%d", fn, k), ops, nil, 0, cover)
 				emit(rr)
 				plans++
@@ -1548,7 +1681,7 @@ func runWrap(cfg config, kind string) {
 			}
 		}
 		// a few two-fault plans
-		for j := 0; j < 3 && len(fns) > 1; j++ {
+		for j := 0; j < 3 && len(fns) > 1 && !stopped(); j++ {
 			a, b := fns[r.intn(len(fns))], fns[r.intn(len(fns))]
 			rr, _ := wrRunHistory(kind, baseKind, treeSeed, fmt.Sprintf("%s:%d,%s:%d", a, r.intn(counts[a]), b, r.intn(counts[b])), ops, nil, 0, cover)
 			emit(rr)
@@ -1558,6 +1691,9 @@ func runWrap(cfg config, kind string) {
 	for _, baseKind := range []string{"mem", "orefa"} {
 		// systematic histories first
 		for _, ops := range [][]wrOp{wrSweepOps(baseKind), wrFlagSweepOps(), wrCompositeOps()} {
+			if stopped() {
+				break
+			}
 			rr, _ := wrRunHistory(kind, baseKind, 1, "none", ops, nil, 0, cover)
 			emit(rr)
 			o.count("history:systematic")
@@ -1565,7 +1701,14 @@ func runWrap(cfg config, kind string) {
 				runPlans(baseKind, 1, ops, rr.counts)
 			}
 		}
-		for i := 0; i < nhist; i++ {
+		if !stopped() {
+			ops := wrSizeOps()
+			rr, _ := wrRunHistory(kind, baseKind, 0, "none", ops, nil, 0, cover)
+			emit(rr)
+			o.count("history:systematic")
+			runPlans(baseKind, 0, ops, rr.counts)
+		}
+		for i := 0; i < nhist && !stopped(); i++ {
 			treeSeed := r.next()%100000 + 2
 			g := &rng{s: r.next()}
 			rr, ops := wrRunHistory(kind, baseKind, treeSeed, "none", nil, g, 8+r.intn(hlen), cover)
@@ -1589,6 +1732,8 @@ func runWrap(cfg config, kind string) {
 	}
 	o.extra["base_hangs_skipped"] = basehangs
 	o.extra["fault_plans"] = plans
+	o.extra["hangs"] = hangs
+	o.extra["stopped_after_hangs"] = stopped()
 	o.rule = "one line = one history of calls through " + kind + " over a MemFS/OrefaFS base with a seeded random tree (first two per base: a sweep of every VFS and File method incl. handed-out files and sub file systems, and OpenFile with all 2^7 flag combinations); " +
 		"observed per call: answer, consulted FnVFS ids, calls that reached the base (recording proxy), full base snapshot before/after; distinct = distinct observed lines" +
 		map[string]string{"rofs": "", "failfs": "; every history is re-run under the read-only plan and under EVERY single-fault plan (k-th invocation of F, for every F consulted and every k below its count in the fault-free run) plus three two-fault plans"}[kind]
